@@ -536,7 +536,7 @@ class C09(VerdictProp):
     n_quick = 150
     n_thorough = 2500
     batch = 400
-    required_theorems = ["C09_shape", "C09_bound", "C09_no_leak", "C09_cancel", "C09_disabled", "C09_quiescent", "C09_admit_enabled"]
+    required_theorems = ["C09_shape", "C09_bound", "C09_no_leak", "C09_cancel", "C09_disabled", "C09_quiescent", "C09_grant_enabled"]
     rule = ("random scripted histories (3-14 operations quick / 3-60 thorough) for limits N in {-1, 0..4}: starts of renders that block inside a harness-supplied template "
             "function and later exit by success / template-function error / panic, renders of a missing template, renders with an already-cancelled context, releases, "
             "cancellations of waiting or admitted renders, probes; one observation of the set of renders inside after every operation (at quiescence), every outcome, and "
